@@ -110,7 +110,9 @@ SPECIALS = ["longname", "bothquotes", "set-of-reals", "naive-time",
 DECODE_POOL = ["12", "-3.5", "16#FF#", "2#101#", "'q s'", '"x"', "abc",
                "NULL", "true", "2001-01-01", "12:30:15Z", "2001-001T01:02:03",
                "END", "a b", "", "1e", "#", "2001-13-01", "23:59:60",
-               "12:00:00+01", "'unterminated", "GROUP", "<m>", "1_0", "inf"]
+               "12:00:00+01", "'unterminated", "GROUP", "<m>", "1_0", "inf",
+               "*/", "/*", "x/*y", "/* c */", "a#b", "+5", "-16#FF#",
+               "16#-FF#", "3#12#", "2001-366", "N/A", "a:b"]
 
 
 # ---- result descriptors -----------------------------------------------------
@@ -261,7 +263,8 @@ class C16(Property):
             if r == "parser":
                 x = rng.random()
                 stmts, toks, text, style = gen.render_doc(
-                    rng, cfg, max_stmts=rng.choice([1, 2, 4, 6]))
+                    rng, cfg, max_stmts=rng.choice([1, 2, 4, 6]),
+                    extended=rng.random() < 0.3)
                 call = {"text": text}
                 if x < 0.3:
                     pass                                    # well-formed
